@@ -1,7 +1,9 @@
 Require Extraction.
 Require Import ExtrOcamlBasic.
 From Coq Require Import NArith ZArith List.
-From CppcmsV Require Import C07.Defs C08.Defs.
+From CppcmsV Require Import C07.Defs C08.Defs C08.ResDefs.
 Definition keep_types : (N * Z * nat) := (0%N, 0%Z, 0%nat).
 Extraction "c08m.ml" keep_types N.add N.mul N.pow N.div_eucl run init step stats first_victim
-  b_init b_malloc b_free b_step total_free_memory max_free_chunk nseq b_fl b_hdr b_err b_msize alignment alignment_bits page_in_use page_header_size self_size.
+  b_init b_malloc b_free b_step total_free_memory max_free_chunk nseq b_fl b_hdr b_err b_msize alignment alignment_bits page_in_use page_header_size self_size
+  r_init r_store r_delete_node rstep rclear nl_clear not_enough_memory opt_alloc strsz count is_pn has_link r_a r_b r_faults with_a with_faults
+  sz_sso sz_object sz_pnode sz_tnode sz_lnode sz_tlnode sz_rbnode sz_bucket.
